@@ -27,6 +27,7 @@ import LexVerif.Props.C08Parser
 import LexVerif.Model.Dragonbox
 import LexVerif.Model.Grisu
 import LexVerif.Proof.DragonboxNormalSpec
+import LexVerif.Proof.GrisuMain
 import LexVerif.Model.WriteBinary
 import LexVerif.Model.Ops.WriteAlgos
 -- string→float algorithm models (fast path, Eisel–Lemire, Bellerophon, power-of-two) and their op handlers
